@@ -116,7 +116,8 @@ theorem C20_argument_list_unchanged (cmp pip : List (Fn Int) → Fn Int) (fs : L
 
 /-- tie to the code: the extractor finds, on this run, no statement in `Compose`, `ComposeInterface`, `Pipe`,
     `PipeInterface` (closures included) that stores into, appends to, sorts/copies into, or hands to another
-    function the parameter slice or an alias of it -/
+    function the parameter slice or an alias of it, and no closure that assigns to a variable of the enclosing
+    function (no state, such as a recycled buffer, survives between invocations of the composed function) -/
 theorem C20_argument_list_not_written :
     FpgoVerif.Gen.effectsC20 = [("Compose", []), ("ComposeInterface", []), ("Pipe", []), ("PipeInterface", [])] := by
   decide
@@ -131,6 +132,19 @@ theorem C20_reuse_spec (script : String) (input : List Int) (fs : List (Fn Int))
   unfold runRU
   simp only [if_true, Bool.false_eq_true, if_false]
   rw [(C20_argument_list_unchanged compose pipe fs).2.2, hc, hp]
+
+/-- the `rr` cases (run on A, keep the result, run on B, re-read result A, …): a result is a value — what an
+    invocation returned is what the fold prescribes for its own input, whatever is invoked afterwards; the
+    implementation model prints what the Spec prints -/
+theorem C20_result_retained (script : String) (a b : List Int) (fs : List (Fn Int)) :
+    runRR true script a b fs = runRR false script a b fs := by
+  have hc : (compose : List (Fn Int) → Fn Int) = Spec.compose := by
+    funext l s; exact (C20_compose_pipe_spec l s).1
+  have hp : (pipe : List (Fn Int) → Fn Int) = Spec.pipe := by
+    funext l s; exact (C20_compose_pipe_spec l s).2
+  unfold runRR
+  simp only [if_true, Bool.false_eq_true, if_false]
+  rw [hc, hp]
 
 /-! ## Adapters: exactly the bound, then the supplied arguments, in order -/
 
